@@ -47,9 +47,31 @@ def run_sync(chunks, expect):
     return out, sock.recv_calls, b"".join(sock.chunks), dec
 
 
+class SpinGuardReader(asyncio.StreamReader):
+    """a real StreamReader that notices a caller which keeps reading after EOF (every such read returns b"" at once, without
+    yielding to the event loop, so an unguarded loop would hang the process rather than the task)"""
+    SPIN = 64
+
+    def __init__(self):
+        super().__init__()
+        self.empty_reads = 0
+
+    async def read(self, n=-1):
+        data = await super().read(n)
+        if not data and n != 0:
+            self.empty_reads += 1
+            if self.empty_reads >= self.SPIN:
+                raise SpinDetected(f"{self.empty_reads} reads after EOF")
+        return data
+
+
+class SpinDetected(BaseException):
+    pass
+
+
 def run_async(chunks, eof, expect):
     async def go():
-        reader = asyncio.StreamReader()
+        reader = SpinGuardReader()
         c = rpcsim.async_client(reader, rpcsim.FakeWriter())
         got = {}
         orig = c._process_response
@@ -71,6 +93,8 @@ def run_async(chunks, eof, expect):
             return "ok " + hx(got["raw"]), rpcfmt.pdu(pdu)
         except asyncio.TimeoutError:
             return "err Other:Timeout", None
+        except SpinDetected as e:
+            return f"spin {e}", None
         except Exception as e:  # noqa
             if "raw" in got:
                 return "ok " + hx(got["raw"]), None
